@@ -70,6 +70,10 @@ func main() {
 		var c caseT
 		r.LoadReplay(&c)
 		fmt.Printf("replay: %+v\n", c)
+		if c.Scenario == "open-connections" {
+			phaseOpenConnections(r)
+			r.Finish()
+		}
 		if c.Scenario == "concurrent" {
 			initRegistryForReplay()
 			phaseConcurrent(r)
@@ -172,6 +176,10 @@ func main() {
 		}
 	} else {
 		r.Capped("key relocation not run")
+	}
+	// 3b. identity of open connections under later handshakes
+	if !capped {
+		phaseOpenConnections(r)
 	}
 	// 4. overlapping requests of different identities through one translator service (E1)
 	if !capped {
